@@ -175,7 +175,8 @@ func RPoll(c *core.Ctx) {
 	}
 	c.Check(nStart == 1 && okStart, "scan / starts the timeout watch once, before the attempt loop", scan.Pos(), "%d call(s); outside the loop: %v", nStart, okStart)
 	// scan: the dynamic execute call is preceded (dominated) by a block that polls under !ignoreTimeout
-	pollDominates := func(fn *ssa.Function, target *ssa.BasicBlock) bool {
+	var pollDominates func(fn *ssa.Function, target *ssa.BasicBlock) bool
+	pollDominates = func(fn *ssa.Function, target *ssa.BasicBlock) bool {
 		// exists If on load(ignoreTimeout) whose "false" side contains a CheckTimeout call, and whose block dominates target
 		for _, b := range fn.Blocks {
 			ifi, ok := b.Instrs[len(b.Instrs)-1].(*ssa.If)
@@ -200,6 +201,53 @@ func RPoll(c *core.Ctx) {
 					if inLoop(pollSucc) {
 						return true
 					}
+				}
+			}
+		}
+		return false
+	}
+	// the same poll factored out into a helper: `if err := r.pollTimeout(); err != nil { return … }`
+	isPollHelper := func(f *ssa.Function) bool {
+		if f == nil || !core.InModule(f) || f == check {
+			return false
+		}
+		for _, b := range f.Blocks {
+			ifi, ok := b.Instrs[len(b.Instrs)-1].(*ssa.If)
+			if !ok {
+				continue
+			}
+			cond := ifi.Cond
+			neg := false
+			if u, ok := cond.(*ssa.UnOp); ok && u.Op == token.NOT {
+				cond, neg = u.X, true
+			}
+			if _, ok := core.LoadOfField(cond, ignore); !ok {
+				continue
+			}
+			pollSucc := b.Succs[1]
+			if neg {
+				pollSucc = b.Succs[0]
+			}
+			for _, ins := range pollSucc.Instrs {
+				if call, ok := ins.(*ssa.Call); ok && call.Call.StaticCallee() == check {
+					return true
+				}
+			}
+		}
+		return false
+	}
+	basePoll := pollDominates
+	pollDominates = func(fn *ssa.Function, target *ssa.BasicBlock) bool {
+		if basePoll(fn, target) {
+			return true
+		}
+		for _, b := range fn.Blocks {
+			if !b.Dominates(target) || !inLoop(b) {
+				continue
+			}
+			for _, ins := range b.Instrs {
+				if call, ok := ins.(*ssa.Call); ok && isPollHelper(call.Call.StaticCallee()) {
+					return true
 				}
 			}
 		}
